@@ -985,8 +985,12 @@ class Check(PropertyCheck):
         ins, outs = op.in_structure(), op.out_structure()
         cplx = any(is_complex_dtype(l.dtype) for l in jax.tree.leaves(ins) + jax.tree.leaves(outs))
         enc = Enc()
-        term = None if cplx else enc.term(op)  # the executable model is over the rationals
-        cls = classes_in(op)
+        term, enc_error = None, None
+        if not cplx:  # the executable model is over the rationals
+            try:
+                term = enc.term(op)
+            except Exception as ex:  # measuring a leaf applies it: judged below, once the dense forms are known
+                enc_error = ex
         approx = is_approx(op)
         obs = {
             'in': A.struct_repr(ins), 'out': A.struct_repr(outs),
@@ -1021,8 +1025,12 @@ class Check(PropertyCheck):
         obs['forms'] = self._compare_forms(mats, approx)
         obs['lin'] = self._linearity(op, mats.get('mv'), approx)
         obs['ref'] = self._reference(case, mats, approx)
+        if enc_error is not None and 'mv' in mats:
+            raise enc_error
         if cplx:
             case['_unsupported'] = 'complex dtypes: the executable model is over the rationals'
+        elif enc_error is not None:
+            case['_unsupported'] = f'a leaf cannot be applied: {type(enc_error).__name__}'
         else:
             case['_term'] = term
             case['_table'] = enc.table_coq()
@@ -1153,6 +1161,10 @@ class Check(PropertyCheck):
         if 'build_error' in obs:
             return None  # the operator cannot be built: outside the property's domain
         if obs.get('mv') is None:
+            if case.get('configured'):
+                # built by its public constructor from documented, admissible parameters (an evaluation method, an
+                # FFT size >= 2K-1, a solver): op(x) must exist and be as_matrix() @ x
+                return f'the operator ({case.get("config")}) was accepted by its constructor but cannot be applied: {obs.get("mv_error")}'
             return None  # the operator cannot be applied to basis vectors at all: outside the domain
         for tag in ('override', 'generic'):
             if obs.get(tag) is None:
